@@ -254,6 +254,7 @@ cgstrf (superlu_options_t *options, SuperMatrix *A,
     /* Allocate storage common to the factor routines */
     *info = cLUMemInit(fact, work, lwork, m, n, Astore->nnz,
                        panel_size, fill_ratio, L, U, Glu, &iwork, &cwork);
+    SLU_VHOOK_MEM("M:InitReturn", Glu, "\"ret\":%lld,\"m\":%d,\"n\":%d,\"annz\":%lld,\"lwork\":%lld,\"fact\":%d", (long long) *info, m, n, (long long) Astore->nnz, (long long) lwork, (int) fact);
     if ( *info ) return;
     
     xsup    = Glu->xsup;
@@ -333,6 +334,7 @@ cgstrf (superlu_options_t *options, SuperMatrix *A,
 		if ( (*info = cpivotL(icol, diag_pivot_thresh, &usepr, perm_r,
 				      iperm_r, iperm_c, &pivrow, Glu, stat)) )
 		    if ( iinfo == 0 ) iinfo = *info;
+		SLU_VHOOK_MEM("C:Col", Glu, "\"kind\":%d,\"jcol\":%d,\"pivrow\":%d,\"usepr\":%d,\"iinfo\":%lld,\"nextl\":%lld,\"nextlu\":%lld,\"nextu\":%lld", 0, (int) icol, pivrow, usepr, (long long) iinfo, (long long) xlsub[xsup[supno[icol]]+1], (long long) xlusup[icol+1], (long long) xusub[icol+1]);
 		
 #if ( DEBUGlevel>=2 )
 		cprint_lu_col("[1]: ", icol, pivrow, xprune, Glu);
@@ -388,6 +390,7 @@ cgstrf (superlu_options_t *options, SuperMatrix *A,
 	    	if ( (*info = cpivotL(jj, diag_pivot_thresh, &usepr, perm_r,
 				      iperm_r, iperm_c, &pivrow, Glu, stat)) )
 		    if ( iinfo == 0 ) iinfo = *info;
+		SLU_VHOOK_MEM("C:Col", Glu, "\"kind\":%d,\"jcol\":%d,\"pivrow\":%d,\"usepr\":%d,\"iinfo\":%lld,\"nextl\":%lld,\"nextlu\":%lld,\"nextu\":%lld", 1, (int) jj, pivrow, usepr, (long long) iinfo, (long long) xlsub[xsup[supno[jj]]+1], (long long) xlusup[jj+1], (long long) xusub[jj+1]);
 
 		/* Prune columns (0:jj-1) using column jj */
 	    	cpruneL(jj, perm_r, pivrow, nseg, segrep,
@@ -461,6 +464,7 @@ cgstrf (superlu_options_t *options, SuperMatrix *A,
     
     ops[FACT] += ops[TRSV] + ops[GEMV];	
     stat->expansions = --(Glu->num_expansions);
+    SLU_VHOOK_MEM("C:FactEnd", Glu, "\"info\":%lld,\"nnzL\":%lld,\"nnzU\":%lld", (long long) *info, (long long) nnzL, (long long) nnzU);
     
     if ( iperm_r_allocated ) SUPERLU_FREE (iperm_r);
     SUPERLU_FREE (iperm_c);
